@@ -141,18 +141,53 @@ func stderrDetail(s string) string {
 			break
 		}
 	}
+	// the message: everything up to the first blank line or stack header
 	var keep []string
-	frames := 0
 	for _, l := range lines[start:] {
+		if l == "" || strings.HasPrefix(l, "goroutine ") || strings.HasPrefix(l, "runtime stack:") || len(keep) >= 8 {
+			break
+		}
 		if len(l) > 300 {
 			l = l[:300] + "..."
 		}
 		keep = append(keep, l)
-		if strings.HasPrefix(l, "\t") {
-			frames++
-		}
-		if frames >= 15 || len(keep) >= 60 {
+	}
+	// the stack of the main goroutine (the pipeline runs there): top frames as
+	// func@dir/file:line, without argument values and addresses
+	g1 := -1
+	for i, l := range lines {
+		if strings.HasPrefix(l, "goroutine 1 ") {
+			g1 = i
 			break
+		}
+	}
+	if g1 >= 0 {
+		keep = append(keep, strings.SplitN(lines[g1], " gp=", 2)[0]+" (main goroutine), top frames:")
+		n := 0
+		for i := g1 + 1; i+1 < len(lines) && n < 64; i++ {
+			l := lines[i]
+			if l == "" {
+				break
+			}
+			if strings.HasPrefix(l, "\t") || !strings.HasPrefix(lines[i+1], "\t") {
+				continue
+			}
+			fn := l
+			if k := strings.LastIndexByte(fn, '('); k > 0 {
+				fn = fn[:k]
+			}
+			fn = strings.TrimPrefix(fn, "cuelang.org/go/")
+			loc := strings.TrimSpace(lines[i+1])
+			if k := strings.Index(loc, " +0x"); k >= 0 {
+				loc = loc[:k]
+			}
+			if k := strings.LastIndex(loc, "/"); k >= 0 {
+				if m := strings.LastIndex(loc[:k], "/"); m >= 0 {
+					loc = loc[m+1:]
+				}
+			}
+			keep = append(keep, "  "+fn+"@"+loc)
+			n++
 		}
 	}
 	return strings.Join(keep, "\n")
@@ -193,7 +228,7 @@ func (p *parent) runChild(mode string, inputs []Input, dump bool) childOut {
 		args = append(args, "--dump")
 	}
 	cmd := exec.Command(p.exe, args...)
-	cmd.Env = append(os.Environ(), "GOTRACEBACK=single")
+	cmd.Env = append(os.Environ(), "GOTRACEBACK=all")
 	stdin, err := cmd.StdinPipe()
 	if err != nil {
 		co.death = &Death{Idx: -1, How: "startup", Detail: err.Error()}
@@ -298,7 +333,14 @@ loop:
 				continue
 			}
 			timedOut = true
-			_ = cmd.Process.Kill() // keep draining until the pipe closes
+			// SIGQUIT makes the Go runtime dump the goroutine stacks (where was it
+			// spinning?) and exit; SIGKILL follows if it does not.  Keep draining
+			// until the pipe closes.
+			_ = cmd.Process.Signal(syscall.SIGQUIT)
+			go func(pr *os.Process) {
+				time.Sleep(4 * time.Second)
+				_ = pr.Kill()
+			}(cmd.Process)
 		}
 	}
 	werr := cmd.Wait()
